@@ -1,3 +1,5 @@
+#![cfg_attr(ndarray_interp_verif, no_std)]
+#![cfg_attr(ndarray_interp_verif, feature(prelude_import))]
 // Copyright (c) 2023 Jonas Bosse
 //
 // Licensed under the MIT license
@@ -155,3 +157,16 @@ unsafe fn cast_unchecked<A, B>(a: A) -> B {
     let ptr = &*ManuallyDrop::new(a) as *const A as *const B;
     unsafe { ptr.read() }
 }
+
+// Verification hook, off unless the crate is built with `--cfg ndarray_interp_verif` (the two
+// `cfg_attr` lines at the top of this file belong to it). The name `std` then refers to a facade
+// crate that re-exports std but substitutes the synchronisation primitives, threads and
+// thread-locals of a controlled scheduler, so that whatever this crate does with atomics, locks
+// or thread-locals becomes a scheduling point of the simulator. Shipped behaviour is unchanged.
+#[cfg(ndarray_interp_verif)]
+#[macro_use]
+extern crate verif_std as std;
+#[cfg(ndarray_interp_verif)]
+#[prelude_import]
+#[allow(unused_imports)]
+use std::prelude::rust_2021::*;
